@@ -26,7 +26,7 @@ theorem get_sensor_reading_refines (num lun : Nat) (s : BmcState) (h : num < 256
   have e2 : (128 * b2n eventMsgEnabled + 64 * b2n scanningEnabled + 32 * b2n unavailable) / 32 % 2 = b2n unavailable := by
     omega
   rcases states1 with _ | a <;> rcases states2 with _ | b <;>
-    simp [api_get_sensor_reading, api_eval, fmtSensorReading, get_sensor_reading, hx, e1, e2] <;>
+    simp [api_get_sensor_reading, getSensorReading, statesOf, api_eval, fmtSensorReading, get_sensor_reading, hx, e1, e2] <;>
     cases unavailable <;> simp [b2n]
   all_goals exact or_mul256 _ _ (w1 a rfl)
 
